@@ -231,6 +231,14 @@ func (p *Prog) Named(rel, name string) *types.Named {
 	}
 	o := pkg.Types.Scope().Lookup(name)
 	if o == nil {
+		// a renamed type the role resolver has found
+		for k, v := range TypeAlias {
+			if v == name && strings.HasPrefix(k, pkg.Types.Path()+".") {
+				o = pkg.Types.Scope().Lookup(strings.TrimPrefix(k, pkg.Types.Path()+"."))
+			}
+		}
+	}
+	if o == nil {
 		return nil
 	}
 	n, _ := o.Type().(*types.Named)
